@@ -340,6 +340,9 @@ func doCall(m *minify.M, c Call) (res result) {
 }
 
 func keyOf(sc *Scenario, c Call) string {
+	if sc.Kind == "cmdin" || sc.Kind == "htmldep" {
+		return sc.Kind + ":" + strings.Join(sc.Args, " ") + ":" + c.E + "|" + c.MT + "|" + c.Doc
+	}
 	return c.E + "|" + c.MT + "|" + c.Doc + "|o" + strconv.Itoa(sc.Optset)
 }
 
